@@ -95,7 +95,8 @@ theorem inv_init (n mh : Nat) (L : Node → List RAd) : Inv (init n mh L) where
     have hl := initNode_entries x (L x) e he
     exact ⟨fun h => absurd hl.2.1 h, fun h => absurd hl.1 h⟩
 
-theorem sym_step {s : Net} {op : Op} (h : ∀ a b, linked s a b = true → linked s b a = true) :
+theorem sym_step {s : Net} {op : Op} (hnd : ∀ c d, op ≠ .disconnect c d)
+    (h : ∀ a b, linked s a b = true → linked s b a = true) :
     ∀ a b, linked (step s op) a b = true → linked (step s op) b a = true := by
   intro a b hab
   by_cases hc : ∃ c d, op = .connect c d
@@ -128,30 +129,31 @@ theorem sym_step {s : Net} {op : Op} (h : ∀ a b, linked s a b = true → linke
       rw [if_neg hcd]
       exact h a b hab
   · have hne : ∀ c d, op ≠ .connect c d := fun c d h' => hc ⟨c, d, h'⟩
-    have hl : (step s op).links = s.links := links_stepCore_eq (tick s) op hne
+    have hl : (step s op).links = s.links := links_stepCore_eq (tick s) op hne hnd
     simp only [linked, hl] at hab ⊢
     exact h a b hab
 
-theorem frameOK_mono {s : Net} {op : Op} {f : Flight} (h : FrameOK s f) : FrameOK (step s op) f := by
+theorem frameOK_mono {s : Net} {op : Op} {f : Flight} (hnd : ∀ c d, op ≠ .disconnect c d)
+    (h : FrameOK s f) : FrameOK (step s op) f := by
   obtain ⟨rest, h1, h2, h3⟩ := h
-  exact ⟨rest, h1, chainOK_mono (fun a b => linked_step) _ _ h2, h3⟩
+  exact ⟨rest, h1, chainOK_mono (fun a b => linked_step hnd) _ _ h2, h3⟩
 
-theorem inv_step {s : Net} {op : Op} (hI : Inv s) : Inv (step s op) where
-  sym := sym_step hI.sym
+/-- Stable topology: the invariant is kept by every op except the loss of a connection. -/
+theorem inv_step {s : Net} {op : Op} (hnd : ∀ c d, op ≠ .disconnect c d) (hI : Inv s) : Inv (step s op) where
+  sym := sym_step hnd hI.sym
   flight := by
     intro f hf
     cases flight_step hf with
     | old h =>
-      exact ⟨linked_step (hI.flight f h).1, fun hw hr => frameOK_mono ((hI.flight f h).2 hw hr)⟩
-    | ann hop ha hd hadv =>
-      refine ⟨linked_step (mem_peersOf hd).1, fun _ _ => ⟨[], ?_, rfl, ?_⟩⟩
-      · rw [hadv]; rfl
-      · rw [hadv]; rfl
+      exact ⟨linked_step hnd (hI.flight f h).1, fun hw hr => frameOK_mono hnd ((hI.flight f h).2 hw hr)⟩
+    | ann hint hop ha hd hadv =>
+      have h := mem_announceAdvs hadv
+      exact ⟨linked_step hnd (mem_peersOf hd).1, fun _ _ => ⟨[], h.path, rfl, by rw [h.origin]; rfl⟩⟩
     | wdr hop ha hcidr hd hadv =>
-      refine ⟨linked_step (mem_peersOf hd).1, fun hw => ?_⟩
+      refine ⟨linked_step hnd (mem_peersOf hd).1, fun hw => ?_⟩
       rw [hadv] at hw; simp [withdrawAdv] at hw
     | fwd a m hm hl ha hb hd hne hns hself hseen hsb hlim hadv =>
-      refine ⟨linked_step (mem_peersOf hd).1, fun hw hr => ?_⟩
+      refine ⟨linked_step hnd (mem_peersOf hd).1, fun hw hr => ?_⟩
       have hw' : m.wd = false := by rw [hadv, fwdAdv_wd] at hw; exact hw
       have hr' : m.routes ≠ [] := by
         intro h0; apply hr; rw [hadv, fwdAdv_routes hw']; simp [h0]
@@ -159,36 +161,36 @@ theorem inv_step {s : Net} {op : Op} (hI : Inv s) : Inv (step s op) where
       simp only at h1 h2 h3
       refine ⟨a :: rest, by rw [hadv, fwdAdv_path hw', h1], ?_, ?_⟩
       · simp only [chainOK, Bool.and_eq_true]
-        exact ⟨linked_step (hI.sym _ _ hl), chainOK_mono (fun a b => linked_step) _ _ h2⟩
+        exact ⟨linked_step hnd (hI.sym _ _ hl), chainOK_mono (fun a b => linked_step hnd) _ _ h2⟩
       · rw [List.getLast?_cons_cons, hadv, fwdAdv_origin]; exact h3
     | rep ord hop ha hb hl hadv =>
-      refine ⟨linked_step hl, fun _ hr => ?_⟩
-      obtain ⟨o, sq, _, _, hm⟩ := mem_replayAdvs hadv
-      rcases replayGroup_cases f.src f.dst ((tick s).nodes f.src) o sq with
-        ⟨e, he, heo, _, hne, hp⟩ | ⟨hp, hnil⟩
-      · obtain ⟨_, hc, hlast⟩ := (hI.entries _ e he).2 hne
-        refine ⟨e.path, by rw [hm]; exact hp, chainOK_mono (fun a b => linked_step) _ _ hc, ?_⟩
-        rw [hm]
-        cases hpe : e.path with
-        | nil => exact absurd hpe hne
-        | cons y t =>
-          rw [List.getLast?_cons_cons, ← hpe, hlast, heo]; rfl
-      · have ho : o = f.src := by
+      refine ⟨linked_step hnd hl, fun _ hr => ?_⟩
+      obtain ⟨p, hp, hcase⟩ := (mem_replayAdvs hadv).path
+      rcases hcase with ⟨hp0, hnil⟩ | ⟨hpne, e, he, heo, _, hpe⟩
+      · subst hp0
+        have ho : f.adv.origin = f.src := by
           apply Classical.byContradiction
           intro hne
           apply hr
-          rw [hm]
           apply hnil
           intro e he heo
           exact (hI.entries _ e he).1 (by rw [heo]; exact hne)
-        exact ⟨[], by rw [hm]; exact hp, rfl, by rw [hm, ← ho]; rfl⟩
+        exact ⟨[], hp, rfl, by rw [ho]; rfl⟩
+      · have hne : e.path ≠ [] := by rw [hpe]; exact hpne
+        obtain ⟨_, hc, hlast⟩ := (hI.entries _ e he).2 hne
+        refine ⟨p, hp, ?_, ?_⟩
+        · rw [← hpe]; exact chainOK_mono (fun a b => linked_step hnd) _ _ hc
+        · cases hpp : p with
+          | nil => exact absurd hpp hpne
+          | cons y t =>
+            rw [List.getLast?_cons_cons, ← hpp, ← hpe, hlast, heo]
   entries := by
     intro x e he
     rcases entries_step he with h | ⟨a, m, hm, hl, _, _, hwd, _, _, r, hr, rfl⟩
     · obtain ⟨h1, h2⟩ := hI.entries x e h
       refine ⟨h1, fun hne => ?_⟩
       obtain ⟨g1, g2, g3⟩ := h2 hne
-      exact ⟨g1, chainOK_mono (fun a b => linked_step) _ _ g2, g3⟩
+      exact ⟨g1, chainOK_mono (fun a b => linked_step hnd) _ _ g2, g3⟩
     · have hr' : m.routes ≠ [] := by intro h0; rw [h0] at hr; cases hr
       obtain ⟨rest, h1, h2, h3⟩ := (hI.flight _ hm).2 hwd hr'
       simp only at h1 h2 h3
@@ -197,27 +199,36 @@ theorem inv_step {s : Net} {op : Op} (hI : Inv s) : Inv (step s op) where
       · rw [hpath]; rfl
       · rw [hpath]
         simp only [chainOK, Bool.and_eq_true]
-        exact ⟨linked_step (hI.sym _ _ hl), chainOK_mono (fun a b => linked_step) _ _ h2⟩
+        exact ⟨linked_step hnd (hI.sym _ _ hl), chainOK_mono (fun a b => linked_step hnd) _ _ h2⟩
       · rw [hpath]; exact h3
+
+/-- "Stable topology": no connection is lost during the history (links may still come up). When a
+    connection IS lost, recorded paths through it stay until the origin's next announcement or the
+    stale-route cleanup replaces them; that transient is outside the property's quantifier and is
+    exercised by the differential run (engine c12, `disconnect` ops and the reroute cases). -/
+def stableTopology (ops : List Op) : Prop := ∀ op, op ∈ ops → ∀ c d, op ≠ .disconnect c d
 
 /-- C12 (paths): in every reachable state every learned route's next hop is a current neighbour
     and the head of its path, the path is a chain of actual links ending at the origin, and a stream
     opened along it reaches the advertising agent. -/
 def C12_statement : Prop :=
-  ∀ (n mh : Nat) (L : Node → List RAd) (ops : List Op) (x : Node) (e : Entry),
+  ∀ (n mh : Nat) (L : Node → List RAd) (ops : List Op), stableTopology ops →
+    ∀ (x : Node) (e : Entry),
     e ∈ ((run (init n mh L) ops).nodes x).entries → e.path ≠ [] →
     linked (run (init n mh L) ops) x e.nextHop = true ∧
     EntryOK (run (init n mh L) ops) x e ∧
     openRoute (linked (run (init n mh L) ops)) x e = some e.origin
 
-theorem C12_path_is_chain (n mh : Nat) (L : Node → List RAd) (ops : List Op) (x : Node) (e : Entry)
+theorem C12_path_is_chain (n mh : Nat) (L : Node → List RAd) (ops : List Op)
+    (hst : stableTopology ops) (x : Node) (e : Entry)
     (he : e ∈ ((run (init n mh L) ops).nodes x).entries) (hp : e.path ≠ []) :
     EntryOK (run (init n mh L) ops) x e :=
-  ((run_induction (P := Inv) _ ops (inv_init n mh L) (fun _ _ h => inv_step h)).entries x e he).2 hp
+  ((run_induction_mem (P := Inv) _ ops (inv_init n mh L)
+    (fun _ op hop h => inv_step (hst op hop) h)).entries x e he).2 hp
 
 theorem C12_holds : C12_statement := by
-  intro n mh L ops x e he hp
-  have hok := C12_path_is_chain n mh L ops x e he hp
+  intro n mh L ops hst x e he hp
+  have hok := C12_path_is_chain n mh L ops hst x e he hp
   refine ⟨?_, hok, C12_open_reaches_origin _ x e hok⟩
   obtain ⟨hh, hc, _⟩ := hok
   cases hpe : e.path with
@@ -234,7 +245,7 @@ theorem C12_holds : C12_statement := by
 def exitAt0 : Node → List RAd := fun x => if x = 0 then [⟨0, 1, 0⟩] else []
 
 def chainOps : List Op := [
-  .connect 0 1, .connect 1 2, .connect 2 3, .announce 0, .deliver 0 1 0, .deliver 1 2 0, .deliver 2 3 0]
+  .connect 0 1, .connect 1 2, .connect 2 3, .announce 0 [], .deliver 0 1 0, .deliver 1 2 0, .deliver 2 3 0]
 
 example : (((run (init 4 0 exitAt0) chainOps).nodes 3).entries.map
     (fun e => (e.path, openRoute (linked (run (init 4 0 exitAt0) chainOps)) 3 e))) =
